@@ -8,19 +8,35 @@ use std::time::Duration;
 use tower_resilience_adaptive::{Aimd, ConcurrencyAlgorithm, Vegas};
 use tower_resilience_retry::{AimdBudget, RetryBudget, TokenBucketBudget};
 
+/// ctor 0: the type's `new`; 1, 2: RetryBudgetBuilder with the options in two different orders
+pub fn mk_budget_cfg(kind: &str, minb: usize, max: usize, initial: usize, amount: usize, cost: usize, fnum: u64, ctor: u64) -> Arc<dyn RetryBudget> {
+    use tower_resilience_retry::RetryBudgetBuilder;
+    let f = fnum as f64 / 4.0;
+    if kind == "tb" {
+        match ctor {
+            1 => RetryBudgetBuilder::new().token_bucket().tokens_per_second(0.0).max_tokens(max).initial_tokens(initial).build(),
+            2 => RetryBudgetBuilder::new().token_bucket().initial_tokens(initial).max_tokens(max).tokens_per_second(0.0).build(),
+            _ => Arc::new(TokenBucketBudget::new(0.0, max, initial)),
+        }
+    } else {
+        match ctor {
+            1 => RetryBudgetBuilder::new().aimd().min_budget(minb).max_budget(max).deposit_amount(amount).withdraw_amount(cost).decrease_factor(f).build(),
+            2 => RetryBudgetBuilder::new().aimd().decrease_factor(f).withdraw_amount(cost).deposit_amount(amount).max_budget(max).min_budget(minb).build(),
+            _ => Arc::new(AimdBudget::new(minb, max, amount, cost, f)),
+        }
+    }
+}
 fn mk_budget(cfg: &Value) -> Arc<dyn RetryBudget> {
     let u = |k: &str| cfg[k].as_u64().unwrap() as usize;
-    if cfg["kind"] == "tb" {
-        Arc::new(TokenBucketBudget::new(0.0, u("max"), u("initial")))
-    } else {
-        Arc::new(AimdBudget::new(u("minb"), u("max"), u("amount"), u("cost"), u("fnum") as f64 / 4.0))
-    }
+    mk_budget_cfg(cfg["kind"].as_str().unwrap(), u("minb"), u("max"), u("initial"), u("amount"), u("cost"), cfg["fnum"].as_u64().unwrap(), cfg["ctor"].as_u64().unwrap_or(0))
 }
 fn budget_scenario(cfg: &Value, ops: &[&str]) -> Scenario {
     let b = mk_budget(cfg);
     let mut v: Vec<(String, OpFn)> = vec![];
+    let phase = phases(ops);
     for o in ops {
         let b2 = b.clone();
+        let o = &o.trim_start_matches(['<', '>']);
         if *o == "W" {
             v.push(("W".into(), Box::new(move || format!("{}", b2.try_withdraw()))));
         } else {
@@ -31,11 +47,27 @@ fn budget_scenario(cfg: &Value, ops: &[&str]) -> Scenario {
         }
     }
     let b3 = b.clone();
-    Scenario { ops: v, obs: Arc::new(move || {
+    Scenario { ops: v, phase, obs: Arc::new(move || {
         let mut m = Obj::new();
         m.insert("bal".into(), json!(b3.balance()));
         m
     }) }
+}
+/// "<X": sequential operation before the concurrent ones, ">X": after them, in list order
+fn phases(ops: &[&str]) -> Vec<usize> {
+    let npre = ops.iter().filter(|o| o.starts_with('<')).count();
+    let (mut pre, mut post) = (0, 0);
+    ops.iter().map(|o| {
+        if o.starts_with('<') {
+            pre += 1;
+            pre - 1
+        } else if o.starts_with('>') {
+            post += 1;
+            npre + post
+        } else {
+            npre
+        }
+    }).collect()
 }
 pub fn run_budget(seed: u64, size: Size, out: &mut Vec<String>) -> (usize, usize, bool) {
     let mut rng = Rng::new(seed);
@@ -44,11 +76,19 @@ pub fn run_budget(seed: u64, size: Size, out: &mut Vec<String>) -> (usize, usize
         json!({"kind":"tb","initial":2,"max":2,"cost":1,"amount":1,"minb":1,"fnum":2}),
         json!({"kind":"tb","initial":0,"max":1,"cost":1,"amount":1,"minb":1,"fnum":2}),
         json!({"kind":"aimd","initial":2,"max":2,"cost":1,"amount":1,"minb":1,"fnum":2}),
-        json!({"kind":"aimd","initial":3,"max":3,"cost":2,"amount":1,"minb":1,"fnum":2}),
-        json!({"kind":"aimd","initial":2,"max":2,"cost":1,"amount":2,"minb":2,"fnum":4}),
+        json!({"kind":"aimd","initial":3,"max":3,"cost":2,"amount":1,"minb":1,"fnum":2,"ctor":1}),
+        json!({"kind":"aimd","initial":2,"max":2,"cost":1,"amount":2,"minb":2,"fnum":4,"ctor":2}),
     ];
     let lists: Vec<Vec<&str>> = vec![vec!["W", "D"], vec!["D", "D"], vec!["W", "W"], vec!["W", "W", "D"], vec!["W", "D", "D"], vec!["D", "D", "D"], vec!["W", "W", "W"]];
     let lists4: Vec<Vec<&str>> = vec![vec!["W", "W", "D", "D"], vec!["W", "D", "D", "D"], vec!["W", "W", "W", "D"]];
+    // a budget that was exhausted and is recovering (its dynamic ceiling one step below the maximum), two
+    // concurrent deposits, then sequential deposits and withdrawals: "<" before, ">" after the concurrent part
+    let recovering: Vec<Vec<&str>> = vec![vec!["<W", "<W", "<D", "D", "D", ">D", ">D", ">W"], vec!["<W", "<W", "<D", "D", "W", ">D", ">D"]];
+    let rec_cfgs = vec![
+        json!({"kind":"aimd","initial":3,"max":3,"cost":3,"amount":1,"minb":1,"fnum":2,"ctor":1}),
+        json!({"kind":"aimd","initial":4,"max":4,"cost":4,"amount":1,"minb":3,"fnum":3,"ctor":2}),
+        json!({"kind":"tb","initial":2,"max":2,"cost":1,"amount":1,"minb":1,"fnum":2,"ctor":1}),
+    ];
     if size == Size::Thorough {
         cfgs.push(json!({"kind":"tb","initial":1,"max":1,"cost":1,"amount":1,"minb":1,"fnum":2}));
         cfgs.push(json!({"kind":"aimd","initial":1,"max":1,"cost":1,"amount":1,"minb":1,"fnum":0}));
@@ -62,6 +102,15 @@ pub fn run_budget(seed: u64, size: Size, out: &mut Vec<String>) -> (usize, usize
             let (cap, extra) = if size == Size::Thorough { if l.len() <= 3 { (8000, 500) } else { (1500, 1500) } } else if l.len() == 2 { (3000, 0) } else if ci == 0 { (6000, 0) } else { (150, 150) };
             let reset = json!({"e":"reset","comp":"budget","cfg":cfg,"ops":l,"seed":seed});
             let st = explore(&|| budget_scenario(cfg, l), &reset, cap, extra, &mut rng, out);
+            ns += st.schedules;
+            ne += st.events;
+            ex &= st.exhaustive;
+        }
+    }
+    for cfg in rec_cfgs.iter() {
+        for l in recovering.iter() {
+            let reset = json!({"e":"reset","comp":"budget","cfg":cfg,"ops":l,"seed":seed});
+            let st = explore(&|| budget_scenario(cfg, l), &reset, if size == Size::Thorough { 4000 } else { 600 }, 100, &mut rng, out);
             ns += st.schedules;
             ne += st.events;
             ex &= st.exhaustive;
@@ -93,8 +142,10 @@ fn limit_scenario(cfg: &Value, ops: &[&str]) -> Scenario {
         Arc::new(v)
     };
     let mut v: Vec<(String, OpFn)> = vec![];
+    let phase = phases(ops);
     for o in ops {
         let a = alg.clone();
+        let o = &o.trim_start_matches(['<', '>']);
         let name = o.to_string();
         match *o {
             "S" => v.push((name, Box::new(move || {
@@ -112,7 +163,7 @@ fn limit_scenario(cfg: &Value, ops: &[&str]) -> Scenario {
         }
     }
     let a2 = alg.clone();
-    Scenario { ops: v, obs: Arc::new(move || {
+    Scenario { ops: v, phase, obs: Arc::new(move || {
         let mut m = Obj::new();
         m.insert("limit".into(), json!(a2.limit()));
         m.insert("lo".into(), json!(a2.min_limit()));
@@ -131,7 +182,9 @@ pub fn run_limit(seed: u64, size: Size, out: &mut Vec<String>) -> (usize, usize,
         json!({"kind":"vegas","initial":3,"min":2,"max":3,"inc":1,"fnum":2,"alpha":3,"beta":6}),
         json!({"kind":"vegas","initial":1,"min":1,"max":1,"inc":1,"fnum":2,"alpha":0,"beta":0}),
     ];
-    let lists: Vec<Vec<&str>> = vec![vec!["S", "F"], vec!["S", "S"], vec!["F", "F"], vec!["L", "F"], vec!["S", "F", "F"], vec!["S", "L", "F"], vec!["S", "S", "F"]];
+    let lists: Vec<Vec<&str>> = vec![vec!["S", "F"], vec!["S", "S"], vec!["F", "F"], vec!["L", "F"], vec!["S", "F", "F"], vec!["S", "L", "F"], vec!["S", "S", "F"],
+        // recovering controller (one step below its ceiling after a failure), two concurrent successes, one more after them
+        vec!["<F", "<S", "S", "S", ">S"], vec!["<F", "S", "S", ">S", ">F", ">S"]];
     let (cap, extra) = if size == Size::Quick { (400, 100) } else { (6000, 1000) };
     let (mut ns, mut ne, mut ex) = (0, 0, true);
     for cfg in &cfgs {
